@@ -217,6 +217,15 @@ def _run_case(case, rec, mon=None):
             from ..common import poke
 
             poke(bank)  # every public attribute read, repr(), ==, hash() before the first response is asked for
+
+            from ..common import scribble
+
+
+            if case["idx"] % 3 == 0:
+
+                scribble(bank)  # ... and overwrites the arrays the properties handed out (centres in kHz, say)
+
+                rec.count("banks_whose_property_values_were_overwritten_by_the_caller")
             rec.count("banks_inspected_before_the_first_request")
         if bank is not None:
             mon.cfg_of[id(bank)] = cfg
@@ -291,6 +300,13 @@ def run_shard(spec, rec):
             run_case({"idx": i, "seed": spec["seed"], "cfg": gen.stft_cfg(rng), "kind": "stft"}, rec, mon)
         else:
             cfg = filtgen.bank_cfg(rng)
+            if i % 9 == 5 and "_kinds" not in cfg and float(cfg["sampling_rate"]).is_integer() and cfg["name"] == "tri":
+                # the sampling rate as a single-precision NumPy number (read from a float32 header field): the representations of one
+                # bank still agree with one another, whatever precision the bank works in.  (Triangular banks only: an Fbank with a float32
+                # rate and the default high_hz takes the square root of a rounding-negative number at its top vertex - DESIGN 8.3, D37 -
+                # which is a matter of the filter's values, C05, not of the agreement between representations.)
+                cfg["_kinds"] = {"sampling_rate": "np.float32"}
+                rec.count("banks_with_a_single_precision_sampling_rate")
             run_case({"idx": i, "seed": spec["seed"], "cfg": cfg, "threshold": [None, None, 5e-5, None, 2e-3, None][i % 6]}, rec, mon)
             if i % 10 == 2:
                 # the same layout again in this process, as new bank objects under other thresholds
